@@ -230,6 +230,10 @@ pub trait Front {
     /// `{:?}` of the session (every field, whether persisted or not), transient bookkeeping masked
     fn session_debug(&mut self) -> Option<String>;
     fn session_keys(&mut self) -> Option<([u8; 16], [u8; 16], u32)>;
+    /// `get_fcnt_up()` where the front-end has that getter (outer None: it has not)
+    fn api_fcnt_up(&mut self) -> Option<Option<u32>> {
+        None
+    }
     fn snapshot(&self) -> VerifSnapshot;
     fn tx_outcome(&self, rng: &mut DryRng, join: bool) -> VerifTx;
     fn take_downlinks(&mut self) -> Vec<(u8, Vec<u8>)>;
@@ -817,7 +821,10 @@ impl<const P: u8, const G: i8, const N: usize, const D: usize> Front for NbFront
         self.dev.get_session().map(|s| norm_session_debug(&format!("{s:?}")))
     }
     fn session_keys(&mut self) -> Option<([u8; 16], [u8; 16], u32)> {
-        self.dev.get_session().map(|s| (s.nwkskey().inner().0, s.appskey().inner().0, s.devaddr().value()))
+        self.dev.get_session_keys().map(|k| (k.nwkskey.inner().0, k.appskey.inner().0, k.devaddr.value()))
+    }
+    fn api_fcnt_up(&mut self) -> Option<Option<u32>> {
+        Some(self.dev.get_fcnt_up())
     }
     fn snapshot(&self) -> VerifSnapshot {
         self.dev.verif_snapshot()
